@@ -113,7 +113,8 @@ theorem strDouble_ok (t : Text) (h : strArgDomain t = true) :
     obtain ⟨ih1, ih2⟩ := ih a8
     simp [confined, run_cons, step_dq_plain a1 a2 a4 a5, Fam.has, ih1, ih2]
 
-/-- string arguments in a single-quoted context: safe when the text has no apostrophe -/
+/-- string arguments spliced VERBATIM into a single-quoted context (the code before dc59a0f): safe when the text
+has no apostrophe -/
 theorem strSingle_ok (t : Text) (h : strArgDomain t = true) (hs : t.contains 39 = false) :
     confined .sq .sq t = true ∧ run .sq t = .sq := by
   fun_induction strArgDomain t with
@@ -137,6 +138,59 @@ theorem strSingle_ok (t : Text) (h : strArgDomain t = true) (hs : t.contains 39 
     obtain ⟨ih1, ih2⟩ := ih a8 hs.2
     have h39 : c ≠ 39 := fun e => hs.1 e.symm
     simp [confined, run_cons, step_sq_plain a1 h39 a4 a5, Fam.has, ih1, ih2]
+
+/-- the escaped operation text: every apostrophe and backslash of a text without raw line breaks is neutralised -/
+theorem escapeJsSq_ok (t : Text) (h : (t.all fun c => c != 10 && c != 13) = true) :
+    confined .sq .sq (escapeJsSq t) = true ∧ run .sq (escapeJsSq t) = .sq := by
+  induction t with
+  | nil => simp [escapeJsSq, confined, run]
+  | cons c rest ih =>
+    simp only [List.all_cons, Bool.and_eq_true, bne_iff_ne, ne_eq] at h
+    obtain ⟨⟨c10, c13⟩, hrest⟩ := h
+    obtain ⟨ih1, ih2⟩ := ih hrest
+    have hhead : rest.head? ≠ some 10 := by
+      cases rest with
+      | nil => simp
+      | cons d r =>
+        simp only [List.all_cons, Bool.and_eq_true, bne_iff_ne, ne_eq] at hrest
+        simp [hrest.1.1]
+    unfold escapeJsSq
+    by_cases h92 : c = 92
+    · subst h92
+      simp [hhead, confined, run_cons, step_sq_bs, step_sqEsc, Fam.has, ih1, ih2]
+    · by_cases h39 : c = 39
+      · subst h39
+        simp [confined, run_cons, step_sq_bs, step_sqEsc, Fam.has, ih1, ih2]
+      · simp [h92, h39, confined, run_cons, step_sq_plain h92 h39 c10 c13, Fam.has, ih1, ih2]
+
+/-- what the iso lexer lets through contains no raw line break -/
+theorem strArgDomain_no_linebreak (t : Text) (h : strArgDomain t = true) :
+    (t.all fun c => c != 10 && c != 13) = true := by
+  fun_induction strArgDomain t with
+  | case1 => simp
+  | case2 c rest hc ih =>
+    have := ih h
+    simp only [List.all_cons, this, Bool.and_true, Bool.and_eq_true, bne_iff_ne, ne_eq]
+    simp at hc
+    omega
+  | case3 c hn hu h1 h2 h3 h4 rest' ih =>
+    simp only [Bool.and_eq_true] at h
+    obtain ⟨⟨⟨⟨a1, a2⟩, a3⟩, a4⟩, a5⟩ := h
+    have := ih a5
+    have b1 := isHex_ne a1
+    have b2 := isHex_ne a2
+    have b3 := isHex_ne a3
+    have b4 := isHex_ne a4
+    simp only [List.all_cons, this, Bool.and_true, Bool.and_eq_true, bne_iff_ne, ne_eq]
+    simp at hu
+    omega
+  | case4 => simp at h
+  | case5 => simp at h
+  | case6 c rest hne ih =>
+    simp only [Bool.and_eq_true, bne_iff_ne, ne_eq] at h
+    obtain ⟨⟨⟨⟨⟨⟨⟨a1, a2⟩, a3⟩, a4⟩, a5⟩, a6⟩, a7⟩, a8⟩ := h
+    have := ih a8
+    simp [List.all_cons, this, a4, a5]
 
 theorem header_ok (t : Text) (hs : (t.all fun c => !isLineTerminator c) = true) :
     confined .line .line t = true ∧ run .line t = .line := by
@@ -187,8 +241,7 @@ theorem holeOk_of_safe (h : Hole) (t : Text) (hd : h.domain t = true) (hs : h.sa
     simp [holeOk, Hole.term, Hole.fam, Fam.base, Hole.embed, this.1, this.2]
   | strSingle =>
     simp only [Hole.domain] at hd
-    simp only [Hole.safe, Bool.not_eq_true'] at hs
-    have := strSingle_ok t hd hs
+    have := escapeJsSq_ok t (strArgDomain_no_linebreak t hd)
     simp [holeOk, Hole.term, Hole.fam, Fam.base, Hole.embed, this.1, this.2]
   | strDouble =>
     simp only [Hole.domain] at hd
